@@ -86,6 +86,10 @@ def check(case, ctx):
     if int(case["wl"] * 1e6) % 3 == 0:
         # the caller keeps ONE g-vector array and refills it for every reflection (it held the previous reflection during
         # the call above)
+        v_prev = np.array([math.cos(tth), -math.sin(tth) * math.sin(eta + 1.0), math.sin(tth) * math.cos(eta + 1.0)])
+        _G_HOLD[:] = (2 * math.pi / wl) * (v_prev - np.array([1.0, 0, 0]))          # previous reflection of the same ring
+        D.det_coor(_G_HOLD, math.cos(tth), wl, L, py, pz, y0, z0, R, ta[0], ta[1], ta[2])
+        D.det_v(_G_HOLD, math.cos(tth), wl, L, py, pz, y0, z0, R, ta[0], ta[1], ta[2])
         _G_HOLD[:] = Gt
         Gt = _G_HOLD
         ctx.event("g-vector-object-refilled-in-place")
